@@ -481,6 +481,11 @@ func referenceReading(stream []byte, v1 bool) (helloOK bool, workDone map[string
 
 func judge(w *sup.Worker, c Case) (string, string) {
 	body, crash := w.Do(c, 40*time.Second)
+	return assess(c, body, crash, w.Restart)
+}
+
+// assess judges the worker's answer. restart is called when goroutines of the request may still be around.
+func assess(c Case, body json.RawMessage, crash *sup.Crash, restart func()) (string, string) {
 	describe := func() string {
 		total := 0
 		var parts []string
@@ -499,7 +504,7 @@ func judge(w *sup.Worker, c Case) (string, string) {
 	}
 	if r.Dump != "" || r.Leaked != "" {
 		// goroutines of this request are still around: do not let them be attributed to the next request
-		w.Restart()
+		restart()
 	}
 	if r.SchemaPanic != "" {
 		return fmt.Sprintf("ReadSchema panicked: %s\n%s", r.SchemaPanic, describe()), "panic"
